@@ -70,6 +70,13 @@ fn bad_lines(rng: &mut Rng) -> Vec<(&'static str, String)> {
         ("two-memory-operands", format!("{} byte bv0, byte [di]", op2)),
         ("two-memory-operands", "xchg word [bx], word [si]".to_string()),
         ("two-memory-operands", format!("{} word [bp,2], word wv2", op2)),
+        // a shift / rotate count is an unsigned byte number or CL, nothing else
+        ("shift-count-register", format!("{} word wv2, {}", rng.pick(&["shl", "sal", "shr", "sar", "rol", "ror", "rcl", "rcr", "ROL", "SAR"]), rng.pick(&["dl", "al", "ah", "bl", "bh", "ch", "dh", "DL"]))),
+        ("shift-count-register", format!("{} byte bv0, {}", rng.pick(&["shl", "shr", "sar", "rol", "ror", "rcl", "rcr"]), rng.pick(&["dl", "al", "bl", "ch"]))),
+        ("shift-count-register", format!("{} {}, {}", rng.pick(&["shl", "shr", "sar", "rol", "ror", "rcl", "rcr"]), a16, rng.pick(&["dl", "al", "bl", "ch", "cx", "dx"]))),
+        ("shift-count-register", format!("{} {}, {}", rng.pick(&["shl", "shr", "sar", "rol", "ror", "rcl", "rcr"]), a8, rng.pick(&["dl", "al", "bl", "ch", "cx"]))),
+        ("shift-count-register", format!("{} word [bx], {}", rng.pick(&["shl", "shr", "sar", "rol", "ror", "rcl", "rcr"]), rng.pick(&["dl", "al", "bl", "ch"]))),
+        ("shift-count-register", format!("{} byte [si,2], {}", rng.pick(&["shl", "shr", "sar", "rol", "ror", "rcl", "rcr"]), rng.pick(&["dl", "al", "bl", "ch"]))),
         ("unsupported-instruction", "in al, 5".to_string()),
         ("unsupported-instruction", "out 5, al".to_string()),
         ("unsupported-instruction", "in ax, dx".to_string()),
